@@ -447,7 +447,12 @@ class Sparsify(EnvironmentFilter):
                 new['context'] = self._make_sparse(new['context'], context_has_headers, 'context')
 
             if self._action and 'actions' in new:
-                new['actions'] = list(map(self._make_sparse,new['actions'],repeat(actions_has_headers),repeat('action')))
+                old_actions    = new['actions']
+                new['actions'] = list(map(self._make_sparse,old_actions,repeat(actions_has_headers),repeat('action')))
+                #reward and feedback functions are defined on the old representation of the actions
+                for target in ['rewards','feedbacks']:
+                    if old_actions and callable(new.get(target)):
+                        new[target] = DiscreteReward(new['actions'], list(map(new[target],old_actions)))
 
             if self._action and 'action' in new:
                 new['action'] = self._make_sparse(new['action'],action_has_headers,'action')
@@ -536,7 +541,12 @@ class Densify(EnvironmentFilter):
                 new['context'] = self._make_dense(new['context'])
 
             if self._action and 'actions' in new:
-                new['actions'] = list(map(self._make_dense,new['actions']))
+                old_actions    = new['actions']
+                new['actions'] = list(map(self._make_dense,old_actions))
+                #reward and feedback functions are defined on the old representation of the actions
+                for target in ['rewards','feedbacks']:
+                    if old_actions and callable(new.get(target)):
+                        new[target] = DiscreteReward(new['actions'], list(map(new[target],old_actions)))
 
             if self._action and 'action' in new:
                 new['action'] = self._make_dense(new['action'])
